@@ -152,6 +152,12 @@ class SemantivaOrchestrator(ABC):
             upstream_map = compute_upstream_map(canonical)
             run_id = f"run-{uuid.uuid4().hex}"
 
+            # The spec is enriched below for pipeline_start; work on a copy so the
+            # caller's canonical spec (hashed into pipeline_id above) is not mutated
+            # and a second traced run of the same Pipeline gets the same pipeline_id.
+            canonical = dict(canonical)
+            canonical["nodes"] = [dict(n) for n in canonical.get("nodes", [])]
+
             # Resolve processor classes without instantiating nodes
             proc_classes = self._resolve_processor_classes(canonical, resolved_spec)
 
